@@ -348,6 +348,7 @@ func run(c *rig.Ctx) {
 	failingNeighbour(c)
 	afterShutdown(c)
 	audioPair(c)
+	samePath(c)
 }
 
 func main() {
